@@ -1037,6 +1037,19 @@ class G:
                 row = [r for r in rows if r["name"] == tk["row"]][0] if tk.get("row") else self.pick(rows)
                 content = self.values_for_struct(row["st"]) if row["st"] is not None else self.simple_value(row["dop"])
                 out[p["name"]] = [row["name"], content]
+        # a LENGTH-KEY may also be given explicitly (it then must agree with the value that uses it); in field
+        # items every item has its own key value
+        for p in s["params"]:
+            if p["pk"] == "lenkey" and self.opts.get("lenkey_explicit_in_items", True) and self.chance(35):
+                users = [q for q in s["params"] if q["pk"] == "value" and q["dop"]["k"] == "simple" and
+                         q["dop"]["dct"]["t"] == "paramlen" and q["dop"]["dct"].get("key") == p["name"]
+                         and q["dop"]["dct"]["bt"] != "A_UINT32" and q["name"] in out]
+                if len(users) == 1:
+                    from vlib.refcodec import to_bytes_value
+                    dct = users[0]["dop"]["dct"]
+                    raw = to_bytes_value(dct["bt"], dct.get("enc"), dct.get("hl") in (None, True), out[users[0]["name"]])
+                    out[p["name"]] = 8 * len(raw)
+                    self.features.add("lenkey-explicit-in-struct")
         return out
 
     def value_for_dop(self, dop):
